@@ -1,6 +1,6 @@
 """C10 -- significant and bracketed durations locate threshold crossings exactly (structure of the masks)."""
 from ..tyob import *  # noqa
-from ..tyob import analyse, expect, item, unmodelled_in, check_forwarder
+from ..tyob import analyse, expect, item, unmodelled_in, check_forwarder, only_managed_reads
 
 ACC = "eqsig.single.AccSignal"
 F = "F"  # atom of a user supplied cumulative measure
@@ -41,7 +41,8 @@ def run(chk):
     chk.rule("R-ENDS", "start = first, end = last element of the same ascending index array (times dt); se=True returns "
                        "(start, end); otherwise end - start >= 0; bracketed fallback (None, None) / 0")
     chk.rule("R-MEASURE", "calc_sig_dur uses the user measure when given, Arias otherwise; the array variant uses the running "
-                          "sum of squares; deprecated names forward by role")
+                          "sum of squares; deprecated names forward by role; the record is read through the signal's managed "
+                          "interface only (no snapshot attribute that no cache clears)")
     P = chk.P
 
     def sig(I, st, name="asig"):
@@ -75,6 +76,7 @@ def run(chk):
             c = "eqsig/im.py:calc_sig_dur(im=%s,se=%s)" % (imk, se)
             unmodelled_in(r, chk, "R-REL", c)
             strict_rule(chk, r, "eqsig.im.calc_sig_dur", c, "p:start", "p:end")
+            only_managed_reads(chk, "R-MEASURE", r, c)
             if imk == "arias":
                 check_result(chk, r, c, se, measure_tags=["quad:trapezoid", "attr:_values"])
             else:
@@ -93,6 +95,7 @@ def run(chk):
             c = "%s:%s(se=%s)" % (r.fi.module.relpath, r.fi.name, se)
             unmodelled_in(r, chk, "R-REL", c)
             strict_rule(chk, r, "eqsig.im.calc_brac_dur", c, "p:threshold")
+            only_managed_reads(chk, "R-MEASURE", r, c)
             for e in r.events("compare", "eqsig.im.calc_brac_dur"):
                 if ("p:threshold" in e.left.tags) != ("p:threshold" in e.right.tags):
                     m = e.right if "p:threshold" in e.left.tags else e.left
@@ -123,7 +126,7 @@ def run(chk):
     chk.floor("R-STRICT", 17)
     chk.floor("R-REL", 40)
     chk.floor("R-ENDS", 28)
-    chk.floor("R-MEASURE", 10)
+    chk.floor("R-MEASURE", 17)
 
 
 def _is_fallback(v):
